@@ -297,6 +297,11 @@ fn parse_digits(s: &[u8]) -> Option<u32> {
 }
 
 fn parse_delta(prev_token: &Token, s: &[u8]) -> Option<(u32, u8)> {
+    // A delta is decoded as digits without leading zeros.
+    if s.starts_with(b"0") {
+        return None;
+    }
+
     if let Token::Digits(n) | Token::Delta(n, _) = prev_token {
         let m = parse_u32(s).ok()?;
 
